@@ -53,6 +53,17 @@ pub fn search(tier: &str, seed: u64, s: &mut Search) {
     for d in twins(&mut rng, if tier == "thorough" { 40 } else { 12 }) {
         docs.push((d.clone(), d.into_bytes(), None));
     }
+    // one text element over several fonts with characters some of them lack: the fallback font must be chosen
+    // the same way every time
+    for k in 0..(if tier == "thorough" { 24 } else { 6 }) {
+        let fams = ["Yellowtail", "Noto Sans", "Noto Serif", "Noto Mono", "Sedgwick Ave Display", "Amiri"];
+        let (a, b, c) = (fams[k % 6], fams[(k + 1 + k / 6) % 6], fams[(k + 2 + k / 3) % 6]);
+        let foreign = ["Привет мир", "日本語 текст", "ελληνικά שלום", "مرحبا Жук"][k % 4];
+        let d = format!(
+            r##"<svg xmlns="http://www.w3.org/2000/svg" width="260" height="80"><text x="5" y="30" font-size="18" font-family="{a}">Abc <tspan font-family="{b}">def</tspan> <tspan font-family="{c}">ghi</tspan> {foreign}</text><text x="5" y="60" font-size="14" font-family="{c}">{foreign} <tspan font-family="{a}">xyz {foreign}</tspan></text></svg>"##
+        );
+        docs.push((d.clone(), d.into_bytes(), None));
+    }
     // ---- (1) baseline and repeated calls in this process
     let mut base: Vec<Option<(u64, u64)>> = vec![];
     for (key, data, path) in &docs {
@@ -61,6 +72,15 @@ pub fn search(tier: &str, seed: u64, s: &mut Search) {
         s.case("repeat", key, a.is_some());
         if a != b {
             s.finding("oracle:C06:repeated-call-differs", &format!("two calls in one process: {:?} vs {:?}", a, b), key);
+        } else if key.contains("font-family") && key.len() < 1200 {
+            // a choice between two candidates shows only now and then: a few more calls for short text documents
+            for _ in 0..10 {
+                let c = fingerprint(data, path.as_deref());
+                if c != a {
+                    s.finding("oracle:C06:repeated-call-differs", &format!("repeated calls in one process: {:?} vs {:?}", a, c), key);
+                    break;
+                }
+            }
         }
         base.push(a);
     }
